@@ -1430,13 +1430,13 @@ func (lhh *LightHouseHandler) handleHostPunchNotification(n *NebulaMeta, fromVpn
 		return
 	}
 
-	remoteAllowList := lhh.lh.GetRemoteAllowList()
 	for _, a := range n.Details.V4AddrPorts {
 		if a == nil {
 			continue
 		}
 		b := protoV4AddrPortToNetAddrPort(a)
-		if remoteAllowList.Allow(detailsVpnAddr, b.Addr()) {
+		// Same filter as for addresses we store: allowed by the remote allow list and not inside our own networks
+		if lhh.lh.unlockedShouldAddV4(detailsVpnAddr, a) {
 			lhh.lh.punchy.Schedule(b, detailsVpnAddr)
 		}
 	}
@@ -1446,7 +1446,7 @@ func (lhh *LightHouseHandler) handleHostPunchNotification(n *NebulaMeta, fromVpn
 			continue
 		}
 		b := protoV6AddrPortToNetAddrPort(a)
-		if remoteAllowList.Allow(detailsVpnAddr, b.Addr()) {
+		if lhh.lh.unlockedShouldAddV6(detailsVpnAddr, a) {
 			lhh.lh.punchy.Schedule(b, detailsVpnAddr)
 		}
 	}
